@@ -136,6 +136,15 @@ class VaultModel(WrapperModel):
     def view(self, en, obj):
         return VaultView(en, obj)
 
+    def havoc(self, en, obj, name):
+        """loop havoc: the item sequences become arbitrary (maps / caches are not touched by XML edits)"""
+        for key in list(obj.fields):
+            if key.startswith("__items_"):
+                kind = key[len("__items_"):]
+                k = en.fresh(f"{name}.{kind}.k", "int")
+                en.pc.append(k >= 0)
+                obj.fields[key] = LLeaf(en.fresh(f"{name}.{kind}.seq", "arr"), k, f"{name}.{kind}")
+
 
 VAULT = VaultModel()
 
